@@ -113,8 +113,13 @@ HostPatterns ==
             PatT("all", <<>>, "HTTPS")}
       \* regular-expression rules
       \cup {Pat("re", <<"nondigit">>), Pat("re", <<"capital">>), Pat("re", <<"named">>)}
+      \* exception rules: inside a blocked domain / wildcard, with no blocking
+      \* rule around them, restricted to a type
+      \cup {PatX("domain", <<"b","a","com">>), PatX("domain", <<"a","org">>),
+            PatXT("domain", ACom, "AAAA")}
 
-McPatterns == {Pat("exact", ACom), Pat("wild", ACom), PatT("domain", ACom, "AAAA")}
+McPatterns == {Pat("exact", ACom), Pat("wild", ACom), PatT("domain", ACom, "AAAA"),
+               PatX("domain", <<"b","a","com">>)}
 
 \* Small subsets by comprehension (never SUBSET S filtered by cardinality).
 Sub1(S) == {{}} \cup {{a} : a \in S}
@@ -282,7 +287,7 @@ ExcludedNeverServed ==
         last.out = Denial(last.req.proto)
 BlockedNameNeverServed ==
     HasLast /\ last.req.id # BadId
-            /\ (\E p \in cfg.hosts : OnListBy(p, last.req.name, last.req.qtype)) =>
+            /\ HostBlocked(cfg.hosts, last.req.name, last.req.qtype) = {TRUE} =>
         last.out = Denial(last.req.proto)
 SilentOnDatagram ==
     HasLast => /\ (last.out = "drop"    => last.req.proto \in SilentProto)
@@ -291,8 +296,14 @@ SilentOnDatagram ==
 \* "All other requests are served."
 OthersServed ==
     HasLast /\ last.req.id # BadId /\ Admitted(cfg, last.req.addr, last.req.id)
-            /\ (\A p \in cfg.hosts : /\ ~OnListBy(p, last.req.name, last.req.qtype)
-                                      /\ ~Undetermined(p, last.req.name, last.req.qtype))
+            /\ HostBlocked(cfg.hosts, last.req.name, last.req.qtype) = {FALSE}
+        => last.out = "served"
+
+\* A name that the list excepts is served to an admitted client, whatever
+\* blocking rule stands around the exception.
+ExceptedNameIsServed ==
+    HasLast /\ last.req.id # BadId /\ Admitted(cfg, last.req.addr, last.req.id)
+            /\ Excepted(cfg.hosts, last.req.name, last.req.qtype)
         => last.out = "served"
 
 \* The decision looks at nothing but (address, ClientID, name, query type --
